@@ -972,37 +972,9 @@ Qed.
 (* ------------------------------------------------------------------ *)
 (** * C13 : histories and Reset *)
 
-Inductive aop :=
-| OAddFact (f : pred) | OAddRule (r : rule) | OAddCheck (c : check) | OAddPolicy (p : policy)
-| OAuthorize | OQuery (q : rule) | OReset.
-
-Definition astep (tok : list block) (a : astate) (o : aop) : astate :=
-  match o with
-  | OAddFact f => add_fact a f
-  | OAddRule r => add_rule a r
-  | OAddCheck c => add_check a c
-  | OAddPolicy p => add_policy a p
-  | OAuthorize => fst (authorize rx tok a)
-  | OQuery q => fst (query rx a q)
-  | OReset => reset a
-  end.
-
-(* what an operation lets the caller observe *)
-Inductive aoutput :=
-| OutNone | OutVerdict (v : verdict) | OutResult (r : res (list pred)).
-
-Definition aobserve (tok : list block) (a : astate) (o : aop) : aoutput :=
-  match o with
-  | OAuthorize => OutVerdict (snd (authorize rx tok a))
-  | OQuery q => OutResult (snd (query rx a q))
-  | _ => OutNone
-  end.
-
-Fixpoint atrace (tok : list block) (ops : list aop) (a : astate) : list aoutput :=
-  match ops with
-  | [] => []
-  | o :: ops' => aobserve tok a o :: atrace tok ops' (astep tok a o)
-  end.
+Notation astep := (astep rx).
+Notation aobserve := (aobserve rx).
+Notation atrace := (atrace rx).
 
 Lemma authorize_limits (tok : list block) (a : astate) :
   a_limits (fst (authorize rx tok a)) = a_limits a.
